@@ -48,6 +48,13 @@ def obligations(tier, ctx):
         for pat in ((4, 6, 7, 8) if tier == "quick" else (0, 1, 2, 4, 5, 6, 7, 8)):
             obs.append(Ob(name=f"writer_long_{kind}_p{pat}", params=[("k", "int")], pre=[f"0 <= k < {nsz}"], call=f"H.writer_long({kind}, k, {pat}, {lim})", backend="P", timeout=600,
                           family="size: payload of c-1, c, c+1 characters for the integer constants c of the source and environment sizes (4096, 8192, 65536, 131072)"))
+    from harness_sizes_n import N_TEXTS
+    for kind in ((0, 2, 3) if tier == "quick" else (0, 1, 2, 3, 8, 9)):
+        obs.append(Ob(name=f"writer_text_{kind}", params=[("i", "int")], pre=[f"0 <= i < {N_TEXTS}"], call=f"H.writer_text({kind}, i)", backend="P", timeout=600,
+                      family="content corpus: payload that is 'active' text (separators, BOM, templates, JSON-looking text)"))
+    for form in range(5):
+        obs.append(Ob(name=f"writer_raw_text_f{form}", params=[("i", "int")], pre=[f"0 <= i < {N_TEXTS}"], call=f"H.writer_raw_text(i, {form})", backend="P", timeout=600,
+                      family="content corpus: pre-serialised strings (compact, trailing LF / CRLF, surrounding white space, pretty-printed)"))
     from symcheck.runner import mirror
     obs += mirror(obs, r"^writer_(0|1|9|10|12|14|0_1|9_0|12_10)$", "F", limit=(4 if tier == "quick" else None))
     return obs
